@@ -59,7 +59,7 @@ func c12Less(a, b c12Val) bool {
 }
 
 func checkC12Srv(job *Job, res *Result) {
-	res.Rule = "SEQ over inputs: all well-formed patterns of length <= 3 over 9 bytes x 8 pattern consumers; WHERE f min max for all pairs of 13 bounds x open/closed, WHERE f op v for 6 operators x 13 values, WHEREIN subsets of size 1-2, on 19 objects of every value kind; 8 alternative spellings of stored numbers (10.0, 1e1, -0, 75e-1 ...) on the query side of every operator, of a closed range and of WHEREIN; the virtual fields z and properties.<path> on points with / without z and GeoJSON features (incl. strings that differ only in case or after a common case-insensitive prefix); COUNT vs IDS and DESC vs ASC for every filter, with and without LIMIT and CURSOR (inside, at and beyond the size of the collection), on a collection mixing strings and geometries in three states (built; ids changed kind and values repeated; after deletions); every SEARCH value stored twice; distinct = distinct (consumer / filter form, expected result)"
+	res.Rule = "SEQ over inputs: all well-formed patterns of length <= 3 over 9 bytes x 8 pattern consumers (+ HOOKS / CHANS / PDELHOOK / PDELCHAN on a server whose hooks and channels have interleaved names); WHERE f min max for all pairs of 13 bounds x open/closed, WHERE f op v for 6 operators x 13 values, WHEREIN subsets of size 1-2, on 19 objects of every value kind; 8 alternative spellings of stored numbers (10.0, 1e1, -0, 75e-1 ...) on the query side of every operator, of a closed range and of WHEREIN; the virtual fields z and properties.<path> on points with / without z and GeoJSON features (incl. strings that differ only in case or after a common case-insensitive prefix); COUNT vs IDS and DESC vs ASC for every filter, with and without LIMIT and CURSOR (inside, at and beyond the size of the collection), on a collection mixing strings and geometries in three states (built; ids changed kind and values repeated; after deletions); every SEARCH value stored twice; distinct = distinct (consumer / filter form, expected result)"
 	res.Assumptions = append(res.Assumptions, "malformed patterns (glob.Match reports an error) are skipped", "NaN is excluded from the comparison matrix (its order is not documented); strings compare case-insensitively; a missing field reads as 0")
 	pa := []byte{'a', 'b', '*', '?', '[', ']', '\\', '^', '-'}
 	var pats []string
@@ -201,6 +201,62 @@ func checkC12Srv(job *Job, res *Result) {
 			cmp("pdelchan", namesOf(c.Do("CHANS", "*")), surv, false)
 			setup()
 			res.States++
+		}
+		// ---- hooks and channels share one name-ordered registry: interleaved names of both kinds
+		if job.Shard == 0 {
+			m := x.Start("M", x.dir+"/M", 9003, nil)
+			cm := x.Dial(m.Addr)
+			mixed := []string{"job:1", "job:2", "job:3", "job:4", "job:5", "other", "zz"}
+			mk := func() {
+				for i, n := range mixed {
+					if i%2 == 0 {
+						cm.Do(append([]string{"SETHOOK", n, "http://127.0.0.1:1/x"}, fence...)...)
+					} else {
+						cm.Do(append([]string{"SETCHAN", n}, fence...)...)
+					}
+				}
+			}
+			kindOf := func(hook bool, pat string) (out []string) {
+				for i, n := range mixed {
+					if (i%2 == 0) == hook && mGlob(pat, n) {
+						out = append(out, n)
+					}
+				}
+				return
+			}
+			for _, pat := range []string{"*", "job:*", "job:[2-4]", "o*", "z*", "job:5", "j*3"} {
+				mk()
+				for _, q := range []struct {
+					cmd  string
+					hook bool
+				}{{"HOOKS", true}, {"CHANS", false}} {
+					got, want := namesOf(cm.Do(q.cmd, pat)), kindOf(q.hook, pat)
+					sort.Strings(got)
+					res.Evaluations++
+					res.DistinctS(fmt.Sprint("mixed", q.cmd, pat, len(want)))
+					if strings.Join(got, " ") != strings.Join(want, " ") {
+						res.Violate("C12/pattern:"+strings.ToLower(q.cmd)+":mixed-registry", fmt.Sprintf("%s %s on a server holding hooks and channels with interleaved names %v selected %v, expected %v", q.cmd, pat, mixed, got, want), map[string]any{"consumer": q.cmd, "pattern": pat})
+					}
+				}
+				for _, q := range []struct {
+					cmd, list string
+					hook      bool
+				}{{"PDELHOOK", "HOOKS", true}, {"PDELCHAN", "CHANS", false}} {
+					r := cm.Do(q.cmd, pat)
+					left := namesOf(cm.Do(q.list, "*"))
+					sort.Strings(left)
+					var want []string
+					for i, n := range mixed {
+						if (i%2 == 0) == q.hook && !mGlob(pat, n) {
+							want = append(want, n)
+						}
+					}
+					res.Evaluations++
+					if strings.Join(left, " ") != strings.Join(want, " ") || r.String() != ":"+strconv.Itoa(len(kindOf(q.hook, pat))) {
+						res.Violate("C12/pattern:"+strings.ToLower(q.cmd)+":mixed-registry", fmt.Sprintf("%s %s replied %s and left %v, expected %d deletions leaving %v", q.cmd, pat, r, left, len(kindOf(q.hook, pat)), want), map[string]any{"consumer": q.cmd, "pattern": pat})
+					}
+				}
+			}
 		}
 		// ---- WHERE / WHEREIN
 		for i, v := range c12Vals {
